@@ -91,7 +91,11 @@ def run_job(job):
     eng = CrashEngine(w, workload, schedule=job["schedule"])
     base_final, base_ledger, snaps = eng.baseline()
     if dumps(base_final.view.outcome()) not in adm:
-        raise RuntimeError("harness: baseline outcome not admissible")
+        # the crash-free run under this baseline schedule already differs from the in-order run: that is
+        # C02's subject (reordering), not a crash effect; this baseline cannot serve as a C01 reference
+        return {"evaluations": 1, "crash_points": 0, "distinct_outcomes": 1, "violations": [], "violation_instances": 0,
+                "job_spec": job, "samples": [["baseline skipped: crash-free outcome under this schedule is not the in-order outcome"]],
+                "baseline_steps": len(base_final.trace), "baseline_executions": len(base_ledger), "baseline_skipped": True}
     ref_seen = seen_set(workload, base_ledger)
     if workload.klass != "confluent":
         ref_seen = None
